@@ -1379,3 +1379,8 @@ def _max_symbolic(ctx, a, kind):
     ctx.assume(z3.Exists(idx, z3.And(rng, v == mx)), axiom=True)
     ctx.ghost_max = mx
     return mx
+
+
+@lib('method:scalar.astype')
+def _scalar_astype(ctx, v, dtype):
+    return A.cast_scalar(v, A.dtype_from(ctx, dtype))
